@@ -230,6 +230,7 @@ class Verdict:
             else:
                 flaky += 1
                 os.remove(path)
+                log("not reproduced: " + (why or "")[:600])
         if not confirmed:
             log("violation(s) did not reproduce from replay file: inconclusive")
             return 2
